@@ -278,6 +278,8 @@ def analyse_walk(program, rep, f, world):
 
 
 def run(program, rep, tier):
+    _NoInline.loop_bound = 5 if tier == 'thorough' else 3
+    rep.extra['loop_bound'] = _NoInline.loop_bound
     world = program.cls('World')
     covered = 0
     seen = set()
